@@ -55,6 +55,20 @@ CHECKS = {
         'prepare': 'zic',
         'assumptions': ZONENOTE,
     },
+    'C11': {
+        'bins': [rcbin('C11')],
+        'shards': {'quick': 12, 'thorough': 16},
+        'time_limit': {'quick': 900, 'thorough': 5400},
+        'prepare': 'zic',
+        'assumptions': ZONENOTE,
+    },
+    'C14': {
+        'bins': [rcbin('C14')],
+        'shards': {'quick': 12, 'thorough': 16},
+        'time_limit': {'quick': 900, 'thorough': 5400},
+        'prepare': 'zic',
+        'assumptions': ZONENOTE,
+    },
     'C15': {
         'bins': [rcbin('C15')],
         'shards': {'quick': 8, 'thorough': 16},
